@@ -248,6 +248,11 @@ impl Property for C11 {
             // 65 535 allocations; the one that comes round to identifier 1 stays outstanding
             v.push(C11Case { total: 65_538, handles: 2, salt: 3, keep: vec![(65_534, 60_000), (65_535, 60_000)], threads: false, history: None, resume_after: false, invalid_first: true, sub_counter: None });
         }
+        // forty operations of every kind (about a third of them subscribes / unsubscribes) stay
+        // outstanding for half a lap of the identifier counter and a little more
+        if worker == 2 % _workers.max(1) {
+            v.push(C11Case { total: 33_000, handles: 2, salt: 11, keep: (0..40u32).map(|i| (i, 32_850u16)).collect(), threads: false, history: None, resume_after: false, invalid_first: false, sub_counter: None });
+        }
         // the far end of the subscription identifier space (and its encoding boundaries on the way)
         let starts = [
             125u32, 16_381, 65_533, 2_097_149, 2_097_150, 4_194_301, 16_777_213, 134_217_725, 268_435_449, 268_435_452, 268_435_453, 268_435_454, 268_435_455,
